@@ -593,7 +593,15 @@ func (c *Ctx) instr(fr *Frame, st *State, reach string, ins ssa.Instruction) {
 			// a method value (x.M) used as a function value: a non-nil function; calls through it go by the callback
 			// contract of the field/parameter it is bound to (the binding itself is an assumed refinement, listed)
 			c.notes["method-value:"+fn.Name()]++
-			c.depsUsed["method value "+fn.Name()+" passed as a callback: assumed to satisfy the callback contract of its use site (refinement not checked)"] = true
+			checked := false
+			if len(x.Bindings) == 1 && fr.isRoot && !c.specMode {
+				checked = c.refineBoundMethod(fr, st, reach, x, fn, c.val(fr, x.Bindings[0]))
+			}
+			if checked {
+				c.depsUsed["method value "+fn.Name()+" bound as a callback: its preconditions are checked against the callback contract of the use site (obligations `refines`); that its effects stay within the callback contract's postconditions and frame is assumed"] = true
+			} else {
+				c.depsUsed["method value "+fn.Name()+" passed as a callback: assumed to satisfy the callback contract of its use site (refinement not checked)"] = true
+			}
 			c.n++
 			fr.env[x] = Sc{fmt.Sprintf("%d", 1000+c.n), "Int"}
 			return
@@ -1232,4 +1240,105 @@ func (c *Ctx) constMapLookup(gnum int, mt *types.Map, key Val, commaOk bool) (Va
 		return TupleV{V: []Val{res, Sc{c.name("mok", "Bool", found), "Bool"}}}, true
 	}
 	return res, true
+}
+
+// refineBoundMethod: a method value recv.M is bound to a callback slot (stored into a function-valued field, or passed
+// for a function-valued parameter) that has a callback contract CB. Obligation `refines`: whenever the callback fires,
+// M's precondition holds - in the state of the binding site, after forgetting everything the calling package owns and
+// every stream position (what may have happened before the callback fires), for arbitrary arguments that satisfy CB's
+// precondition. The receiver's own state is what it is at the binding site (the calling package cannot touch it:
+// encapsulation; that M re-establishes its receiver precondition for a second invocation is NOT checked).
+func (c *Ctx) refineBoundMethod(fr *Frame, st *State, reach string, x *ssa.MakeClosure, wrapper *ssa.Function, recv Val) bool {
+	mobj, ok := wrapper.Object().(*types.Func)
+	if !ok {
+		return false
+	}
+	m := c.w.prog.FuncValue(mobj)
+	if m == nil {
+		return false
+	}
+	mct := c.contractFor(m)
+	if mct == nil || len(mct.Requires) == 0 {
+		return false
+	}
+	// callback slots the value flows into
+	var keys []string
+	for _, r := range *x.Referrers() {
+		switch u := r.(type) {
+		case *ssa.Store:
+			if u.Val != x {
+				continue
+			}
+			if fa, ok := u.Addr.(*ssa.FieldAddr); ok {
+				if pt, ok := fa.X.Type().Underlying().(*types.Pointer); ok {
+					if stt, ok := pt.Elem().Underlying().(*types.Struct); ok {
+						keys = append(keys, typeKey(pt.Elem())+"."+stt.Field(fa.Field).Name())
+					}
+				}
+			}
+		case *ssa.Call:
+			callee := u.Call.StaticCallee()
+			if callee == nil {
+				continue
+			}
+			for i, a := range u.Call.Args {
+				if a == x && i < len(callee.Params) {
+					keys = append(keys, shortFn(callee)+"."+callee.Params[i].Name())
+				}
+			}
+		}
+	}
+	done := false
+	for _, key := range keys {
+		cb := c.w.callbackContract(key)
+		if cb == nil {
+			continue
+		}
+		pkg := key
+		if i := strings.Index(pkg, "."); i >= 0 {
+			pkg = pkg[:i]
+		}
+		st2 := st.clone()
+		c.touchAll(st2)
+		for k := range st2.heap {
+			if ownedKey(k, pkg) || k == "ghost.pos" || k == "ghost.peeked" || k == "ghost.fault" {
+				st2.heap[k] = c.freshHeap(st2.hsort[k])
+			}
+		}
+		for k := range st2.mem {
+			if ownedKey(k, pkg) {
+				st2.mem[k] = c.fresh("M", st2.hsort["M:"+k])
+			}
+		}
+		st2.gen = newGen()
+		st2.pgen = nil
+		c.bumpTop()
+		// arbitrary arguments of the callback
+		sig := m.Signature
+		var args []Val
+		var cbn calleeNames
+		for i := 0; i < sig.Params().Len(); i++ {
+			t := sig.Params().At(i).Type()
+			args = append(args, c.freshVal(t, "cbarg"))
+			nm := sig.Params().At(i).Name()
+			cbn.params = append(cbn.params, nm)
+			cbn.ptypes = append(cbn.ptypes, t)
+		}
+		if len(cb.Params) == len(cbn.params) {
+			cbn.params = cb.Params
+		}
+		cenv := &CEnv{c: c, st: st2, old: st2, lookup: mkLookup(cbn, args, nil)}
+		for _, rq := range cb.Requires {
+			c.assume(reach, c.evalBool(cenv, rq.Expr, rq.Text))
+		}
+		mn := c.namesFor(mct, m, nil)
+		margs := append([]Val{normPtr(recv)}, args...)
+		menv := &CEnv{c: c, st: st2, old: st2, lookup: mkLookup(mn, margs, nil), pkg: mn.pkg}
+		for k, rq := range mct.Requires {
+			f := c.evalBool(menv, rq.Expr, rq.Text)
+			c.obligeProps("refines", fmt.Sprintf("%s:%s/%d", key, shortFn(m), k), reach, f, x.Pos(), "callback contract of "+key+" implies the precondition of "+shortFn(m)+": "+rq.Text, rq.Props)
+		}
+		done = true
+	}
+	return done
 }
